@@ -306,11 +306,30 @@ def stage_slots(ctx: Ctx):
         d = reparse_diffs(root) or cmp_ast(root.a, ast.parse(want), positions=False, ctx=False)
         if d:
             ctx.violation('sub-struct|args-capture-with-interleaved-keywords', 'a slot was filled with more than the captured elements', {**rec, 'after': root.src, 'diffs': d})
+    # ctx=True: only the nodes whose expression context is the pattern's are rewritten and counted
+    for src, mk, template, want, counts in [('total = total + step\ndel total\n', lambda: ast.Name('total', ast.Load()), 'acc', 'total = acc + step\ndel total\n', (1, 1)),
+                                            ('total = total + step\ndel total\n', lambda: ast.Name('total', ast.Store()), 'acc', 'acc = total + step\ndel total\n', (1, 1)),
+                                            ('a.b = a.b\ndel a.b\n', lambda: ast.Attribute(ast.Name('a', ast.Load()), 'b', ast.Load()), 'c.d', 'a.b = c.d\ndel a.b\n', (1, 1)),
+                                            ('x = [i, i]\nfor i in i: pass\n', lambda: ast.Name('i', ast.Load()), 'j', 'x = [j, j]\nfor i in j: pass\n', (3, 3))]:
+        for nested in (False, True):
+            root = fst.FST(src, 'exec')
+            rec = {'src': src, 'template': template, 'ctx': True, 'nested': nested, 'expected': want, 'expected_counts': list(counts)}
+            try:
+                got = root.subn(mk(), template, nested, ctx=True)[1:]
+            except Exception as e:
+                ctx.violation(f'slots-raise|{type(e).__name__}', 'sub(ctx=True) raised although the substitution of the nodes in that context is a valid program', {**rec, 'error': repr(e)[:300]})
+                continue
+            ctx.tick(('slots-ctx', src, template, nested), 'sub:ctx')
+            d = reparse_diffs(root) or cmp_ast(root.a, ast.parse(want), positions=False, ctx=True)
+            if d or tuple(got) != counts:
+                ctx.violation('sub-struct|ctx', 'sub(ctx=True) rewrote (or counted) nodes whose expression context is not the pattern\'s', {**rec, 'after': root.src, 'counts': list(got), 'diffs': d})
     # slots inside string constants of the template are filled with the (escaped) source of the capture
     from fst.match import MBinOp, MName, MAttribute
     bop = lambda: MBinOp(left=M(l=...), right=M(r=...))
     cases += [('x = a + b', bop, 'log("__FST_l plus __FST_r")', 'x = log("a plus b")'), ('x = a + b', bop, 'log(f"{__FST_r:>__FST_l} = __FST_")', 'x = log(f"{b:>a} = a + b")'),
-              ('x = a.b', lambda: MAttribute(), "t('''q: __FST_''', b'__FST_')", "x = t('''q: a.b''', b'a.b')"), ('y = c * d', bop, '"__FST_l" "__FST_r"', 'y = "c" "d"')]
+              ('x = a.b', lambda: MAttribute(), "t('''q: __FST_''', b'__FST_')", "x = t('''q: a.b''', b'a.b')"), ('y = c * d', bop, '"__FST_l" "__FST_r"', 'y = "c" "d"'),
+              ('r = compute(a, b)', lambda: MCall(func=M(f=...), args=[M(x=...), M(y=...)]), 'log("__FST_f: __FST_x, __FST_y", __FST_)', 'r = log("compute: a, b", compute(a, b))'),
+              ('y = c * d', bop, "'''__FST_l __FST_r\n__FST_r __FST_l'''", "y = '''c d\nd c'''")]
     for src, mk, template, want in cases:
         if want is None:
             continue
@@ -325,9 +344,18 @@ def stage_slots(ctx: Ctx):
                 ctx.violation(f'slots-raise|{type(e).__name__}', 'sub() raised on a slot combination whose result is a valid program', {**rec, 'error': repr(e)[:300]})
                 continue
             ctx.tick(('slots', src, template, nested), 'sub:slots')
+            in_string = bool(re.search(r'''["'][^"']*__FS[TSO]_''', template))
+            if in_string:
+                # (the Constant values stay stale - recorded finding - but the SOURCE must hold every slot filled)
+                try:
+                    src_ok = not cmp_ast(ast.parse(root.src), ast.parse(want), positions=False, ctx=False)
+                except SyntaxError:
+                    src_ok = False
+                if not src_ok:
+                    ctx.violation('sub-struct|string-slot-source', 'the source after sub() does not hold the template with every slot inside its strings filled', {**rec, 'after': root.src})
+                    continue
             d = reparse_diffs(root)
             if d:
-                in_string = bool(re.search(r'''["'][^"']*__FS[TSO]_''', template))
                 ctx.violation('sub-c01|string-slot' if in_string and all('.value' in x for x in d) else 'sub-c01|slots', 'the tree after sub() does not re-parse to itself', {**rec, 'after': root.src, 'diffs': d})
                 continue
             d = cmp_ast(root.a, ast.parse(want), positions=False, ctx=False)
